@@ -69,6 +69,7 @@ PROPS = {
     ),
     "C13": dict(
         runs=[dag_run("dag", 3000, 150000, ["-maxn", "6"]), dag_run("history", 1500, 75000, ["-maxn", "6"]), dag_run("exh", 1200, 12560)],
+        race=dict(n_quick=150, n_thorough=3000),
         coq_sample=12,
         rule="exhaustive profile (thorough tier: all 12560 combinations; quick tier: a slice of 1200 chosen by the seed): every dependency shape on 1-3 vertices x every outcome assignment {nil, error, ErrorSkipParents, fail-then-succeed with one retry} x {parallel, limit 1, limit 2, serial} x every order in which running tasks are made to finish; plus random acyclic graphs of 1-6 vertices x outcome tables {nil, error, ErrorSkipParents, fail-then-succeed with retries} x parallel / SetMaxParallel 1-3 / serial x cancellation points; the harness releases one running task at a time (smallest id) and waits for quiescence, so the completion order is the one it chose; every observed trace must be accepted by the transition system (each Enter/Exit is an enabled transition, every quiescent point is maximal, Run's result is the model's); non-trivial = the graph has an edge and a task ran",
         assumptions=["memory visibility between a dependency and its dependents is the Go memory model's (channel receive / go statement), not modelled: the theorems give the synchronisation order (completion received before the dependent's thread is created)",
@@ -81,6 +82,7 @@ PROPS = {
     ),
     "C15": dict(
         runs=[dag_run("dag", 3000, 150000, ["-maxn", "6", "-pairs", "600"]), dag_run("history", 1000, 50000, ["-maxn", "6", "-pairs", "200"]), dag_run("exh", 1200, 12560)],
+        race=dict(n_quick=150, n_thorough=3000),
         coq_sample=12,
         rule="as C13 with limits 1-3 and serial mode; plus pairs of concurrently running graphs sharing Task objects (per-graph peak and per-Task concurrent executions counted inside the task functions); buffered output checked to arrive as one block per attempt; non-trivial = a limit or serial mode is set and at least two tasks ran",
         assumptions=["'at no instant' is interleaving semantics over Enter/Exit events observed inside the task functions"],
